@@ -269,6 +269,9 @@ def execute(case, ctx):
                     continue
             if any('crc24' in str(x.message).lower() for x in wl):
                 ctx.viol('C10:spurious-crc-warning:%s' % form, 'loading an uncorrupted armored %s (%s) reports a CRC mismatch' % (st['kind'], form))
+            if isinstance(t, bytearray) and bytes(t) != text.encode('ascii'):
+                ctx.viol('C10:caller-buffer-changed:armor', 'loading an armored %s from a bytearray changed the caller\'s bytearray (%d -> %d octets)'
+                         % (st['kind'], len(text), len(t)))
             if bytes(o2) != raw:
                 ctx.viol('C10:armor-load-differs:%s' % form, 'a %s loaded from armor (%s) exports other octets than the original' % (st['kind'], form))
         # ---- (2b) "the same object as loading the binary": the binary export loads to the same octets, as bytes and as bytearray
@@ -282,6 +285,10 @@ def execute(case, ctx):
                     ctx.viol('C10:own-binary-unloadable:%s:%s' % (bform, type(e).__name__), 'PGPy cannot load its own binary %s export (%s): %s'
                              % (st['kind'], bform, e))
                     continue
+                if bytes(blob) != raw:
+                    # the input is the caller's: a second load of the same buffer must see the same octets
+                    ctx.viol('C10:caller-buffer-changed:binary', 'loading a binary %s from a bytearray changed the caller\'s bytearray (%d -> %d octets)'
+                             % (st['kind'], len(raw), len(blob)))
                 if braw != raw:
                     ctx.viol('C10:binary-load-differs:%s' % bform, 'a %s loaded from its binary export (%s) exports other octets (%d vs %d)'
                              % (st['kind'], bform, len(braw), len(raw)))
